@@ -114,6 +114,8 @@ func (w *World) TlaLines(forced bool, label string) []string {
 			put(m{"ev": "init", "label": label, "forced": forced,
 				"schema": e.Cfg.Schema, "shallow": e.Cfg.Shallow,
 				"mutations": e.Cfg.Mutations, "push": e.Cfg.PushUs != 0,
+				// the real debounce + the real push ticker (not the schedule's `push`)
+				"ticker": e.Cfg.PushUs > 0,
 				"skipped": nz(e.Cfg.Skipped), "allowednil": e.Cfg.Allowed == nil,
 				"allowed": nz(e.Cfg.Allowed), "srcnames": []string(SrcNames)})
 		case "rpc.hello":
